@@ -76,6 +76,13 @@ func (e *Engine) doIter1(s *slot, op Op) error {
 		}
 	}
 	for r := 0; r < op.Re; r++ {
+		if op.Btw != 0 {
+			// the tree stays unchanged, but other read-only calls happen before the sequence is used again
+			if p := call(func() { e.queriesBetween(s) }); p != "" {
+				return ErrAbort
+			}
+			e.fact("iter_queries_between")
+		}
 		var got []kv
 		if p := call(func() { got = collect(seq) }); p != "" {
 			return e.outcome("iter", fmt.Sprintf("%s (complete pass %d)", what, r+1), p)
@@ -90,6 +97,46 @@ func (e *Engine) doIter1(s *slot, op Op) error {
 		e.fact("iter_nontrivial_" + op.M)
 	}
 	return nil
+}
+
+// queriesBetween runs read-only calls (derived from the stored keys) that leave
+// the tree unchanged: lookups of present and absent keys, a failed delete,
+// extremes and short scans with other arguments.
+func (e *Engine) queriesBetween(s *slot) {
+	es := s.model.Sorted()
+	var probes [][]byte
+	if len(es) > 0 {
+		probes = append(probes, es[0].Raw, es[len(es)-1].Raw)
+		for _, p := range derivedProbes(s.kind, []*Entry{es[len(es)/2]}, 6) {
+			probes = append(probes, p)
+		}
+	} else {
+		probes = append(probes, s.kind.Canon(rawOf(7)))
+	}
+	for _, p := range probes {
+		s.sub.Search(p)
+		if _, present := s.model.Get(p); !present {
+			s.sub.Delete(p) // absent: a no-op
+		}
+		if s.kind.HasPrefix() {
+			q := p
+			for len(q) > 0 && s.kind.Family() == "collation" && !validRunes(q) {
+				q = q[:len(q)-1]
+			}
+			n := 0
+			s.sub.Prefix(q)(func([]byte, int) bool { n++; return n < 3 })
+		}
+		if s.kind.HasRange() {
+			n := 0
+			s.sub.Range(p, probes[0])(func([]byte, int) bool { n++; return n < 3 })
+		}
+	}
+	s.sub.Minimum()
+	s.sub.Maximum()
+	n := 0
+	s.sub.TopK(2)(func([]byte, int) bool { n++; return true })
+	s.sub.BottomK(2)(func([]byte, int) bool { n++; return true })
+	s.sub.All()(func([]byte, int) bool { n++; return n < 4 })
 }
 
 func sameKVs(k Kind, a, b []kv) bool {
